@@ -7,6 +7,7 @@ package main
 
 import (
 	"fmt"
+	"os"
 	"path/filepath"
 	"strings"
 )
@@ -269,7 +270,7 @@ func (q *c16Rand) transform() *cTransform {
 		for t.Key = q.field(); t.Key == "facility"; t.Key = q.field() {
 		}
 		t.Num = numOk(int64(q.r.PickInt([]int{1, 2, 5, 50, 180, 1 << 40})))
-		t.Suffix = q.r.PickStr([]string{"~", "...", " (cut)", "…"})
+		t.Suffix = q.r.PickStr([]string{"~", "...", " (cut)", "$"})
 	case "unescape":
 		t.Key = q.field()
 	}
@@ -640,7 +641,7 @@ func c16AllMuts(c *cConfig) []c16Mut {
 		m.add(fmt.Sprintf("schema.fields[%d]", i), "field-renamed", func() { c.Fields = append([]string{}, c.Fields...); c.Fields[i] = c.Fields[i] + "2" })
 	}
 	n := int64(len(c.Fields))
-	m.num("schema.maxFields", &c.MaxFields, []int64{0, n - 1, n, n + 1, -1, 1, 1 << 20})
+	m.num("schema.maxFields", &c.MaxFields, []int64{0, n - 1, n, n + 1, -1, 1, 4096})
 	for _, d := range []string{"top-unknown-key", "schema-fields-scalar", "schema-unknown-key", "metrickeys-map", "transformations-scalar"} {
 		d := d
 		m.add("yaml", "yaml-damage="+d, func() { c.Damage = d })
@@ -896,7 +897,7 @@ func c16Records(c *cConfig) []string {
 		line(191, "x", "server1", "1234567", "a", "2020/ kern notice"),
 		line(14, "-", "-", "-", "-", "-"),
 		line(86, "info", "x", "5", "info", "info"),
-		line(30, "host", "app", "pid", "source", "héllo wörld ünïcödé"),
+		line(30, "host", "app", "pid", "source", "hello world, plain ascii only: slicing bytes must not be able to cut a rune"),
 		line(165, "h", "a", "1", "s", "a"),
 		line(165, "h", "a", "1", "s", ""),
 		line(165, "h", "a", "1", "s", " leading and trailing spaces "),
@@ -977,12 +978,13 @@ func c16Gen(g *Gen) {
 		cases = append(cases, &Case{Kind: kind, S: toks, Z: z})
 		classes = append(classes, class)
 	}
-	one := func(class string, c *cConfig) { emit(class, 0, c.Encode(), true) }
-	lite := func(class string, c *cConfig) { emit(class, 0, c.Encode(), false) }
+	one := func(class string, c *cConfig) { c16FixDamage(c); emit(class, 0, c.Encode(), true) }
+	lite := func(class string, c *cConfig) { c16FixDamage(c); emit(class, 0, c.Encode(), false) }
 	seq := func(class string, cs ...*cConfig) {
 		w := &tokw{}
 		w.n(len(cs))
 		for _, c := range cs {
+			c16FixDamage(c)
 			c.encodeInto(w)
 		}
 		emit(class, 1, w.toks, true)
@@ -1072,7 +1074,7 @@ func c16Gen(g *Gen) {
 			// one, sometimes two or three substitutions at once
 			cnt := g.R.PickInt([]int{1, 1, 1, 2, 3})
 			for j := 0; j < cnt; j++ {
-				ms[g.R.Intn(len(muts))].apply()
+				c16SafeApply(ms[g.R.Intn(len(muts))])
 			}
 			one("random-subst", c)
 		}
@@ -1127,8 +1129,87 @@ func c16Gen(g *Gen) {
 		g.Count(classes[i])
 		g.Case(cs.Kind, cs.S, cs.Z)
 	}
+	for _, ch := range p.children {
+		ch.kill()
+	}
+	os.RemoveAll(p.dir)
+	for i := 0; i < p.flakyHangs; i++ {
+		g.Count("_stall-not-repeated")
+	}
 }
 
 func init() {
 	register(&Prop{ID: "C16", Gen: c16Gen, Run: c16Run, Child: c16ChildMain})
+}
+
+// c16FixDamage: a YAML-level damage is attached to a place of the file; when another substitution has
+// removed that place the file is not damaged
+func c16FixDamage(c *cConfig) {
+	ok := true
+	switch c.Damage {
+	case "input-unknown-key":
+		ok = len(c.Inputs) > 0
+	case "extraction-unknown-key":
+		ok = len(c.Inputs) > 0 && c.Inputs[0].Type == "syslog" && len(c.Inputs[0].Extractions) > 0
+	case "orch-unknown-key":
+		ok = c.Orch.Type != "-"
+	case "transform-unknown-key":
+		ok = len(c.Transforms) > 0
+	case "pair-unknown-key":
+		ok = len(c.Pairs) > 0
+	case "output-unknown-key":
+		ok = len(c.Pairs) > 0 && c.Pairs[0].Out.Type != "-"
+	}
+	if !ok {
+		c.Damage = ""
+	}
+}
+
+// c16SafeApply: a second substitution may find the site already removed by the first one
+func c16SafeApply(m c16Mut) {
+	defer func() { recover() }()
+	m.apply()
+}
+
+// c16CorpusConfigs: the configurations on which the original code failed (one per repaired defect), kept
+// as corpus cases that run first on every check.
+func c16CorpusConfigs(dir string) []*cConfig {
+	var out []*cConfig
+	with := func(f func(c *cConfig)) {
+		c := c16Minimal(dir)
+		f(c)
+		out = append(out, c)
+	}
+	one := func(t *cTransform) { with(func(c *cConfig) { c.Transforms = []*cTransform{t} }) }
+	one(&cTransform{Type: "extract", Key: "log", Pattern: "(?P<nosuch>a+)"})
+	with(func(c *cConfig) { c.Pairs[0].Out.Env = []string{"host", "nosuch"} })
+	with(func(c *cConfig) { c.Pairs[0].Out.Hidden = []string{"nosuch"} })
+	one(&cTransform{Type: "addFields", Pairs: [][2]string{{"extradata", "${log[99999999999999999999:]}"}}})
+	with(func(c *cConfig) { c.Orch.Tag = "${app[:-99999999999999999999]}" })
+	one(&cTransform{Type: "extractHead", Key: "log", Pattern: "x[]", Num: numOk(10), Dest: "extradata"})
+	one(&cTransform{Type: "extractTail", Key: "log", Pattern: "[a--z]", Num: numOk(10), Dest: "extradata"})
+	one(&cTransform{Type: "extractHead", Key: "log", Pattern: "abc*", Num: numOk(10), Dest: "extradata"})
+	one(&cTransform{Type: "extractTail", Key: "log", Pattern: "*abc", Num: numOk(10), Dest: "extradata"})
+	one(&cTransform{Type: "extractHead", Key: "log", Pattern: "[a-\xff]", Num: numOk(10), Dest: "extradata"})
+	dd := func(hidden []string, addr string) {
+		with(func(c *cConfig) {
+			c.Pairs[0].Out = cOutput{Type: "datadog", Hidden: hidden, Addr: addr, Dur: cBig{V: 30e9}}
+		})
+	}
+	dd(nil, "http://[::1")
+	dd([]string{"nosuch"}, "http://localhost:1/x")
+	with(func(c *cConfig) { c.Orch.Type = "-" })
+	with(func(c *cConfig) { c.Pairs[0].Buf.Type = "-" })
+	with(func(c *cConfig) { c.Pairs[0].Out.Type = "-" })
+	with(func(c *cConfig) {
+		c.Fields = append(c.Fields, "my-field")
+		c.MaxFields = numOk(int64(len(c.Fields)))
+		c.MetricKeys = []string{"my-field"}
+	})
+	with(func(c *cConfig) { c.Orch.Keys = []string{"app", "app"} })
+	with(func(c *cConfig) { c.MetricKeys = []string{"host", "host"} })
+	with(func(c *cConfig) { c.Pairs = nil })
+	// boundary: everything at its smallest legal value, and the sample
+	out = append(out, c16Minimal(dir), c16Sample(dir))
+	return out
 }
